@@ -45,9 +45,9 @@ def asBlockG (j : Json) : R BlockG := do
 /-- op `c01_tree`: a real output parsed into the grammar by the harness → side condition + re-print -/
 def opC01Tree (j : Json) : R Json := do
   let d : DocG := { head := ← listF asNode j "head", blocks := ← listF asBlockG j "blocks" }
-  return Json.mkObj [("docOk", Json.bool (docOk d)), ("text", Json.str (String.ofList (printDoc d))),
+  return Json.mkObj [("docOk", Json.bool (docOkFast d)), ("text", Json.str (String.ofList (printDoc d))),
     ("plainOk", Json.bool (plainNodes d.head && d.blocks.all blockOk)),
-    ("adjOk", Json.bool (nodesOk [Node.grp (docNodes d)] none))]
+    ("adjOk", Json.bool (nodesOkFast [Node.grp (docNodes d)] none))]
 
 namespace Rtf
 def ops : List (String × (Json → R Json)) := [("wf", opWf), ("print_nodes", opPrintNodes), ("c01_tree", opC01Tree)]
